@@ -4,10 +4,12 @@ import json, glob, os
 V = os.path.dirname(os.path.abspath(__file__))
 props = [json.loads(l) for l in open(os.path.join(V, "properties.jsonl"))]
 checks, na = [], []
+# only checks listed in harness/registered.txt are claimed (others may still be under construction)
+registered = set(open(os.path.join(V, "harness", "registered.txt")).read().split())
 for p in props:
     cid = p["id"]
     mp = os.path.join(V, "harness", "checks", cid.lower(), "meta.json")
-    if not os.path.exists(mp):
+    if not os.path.exists(mp) or cid not in registered:
         na.append({"property_id": cid, "reason": "check not built yet (property-based testing applies; see DESIGN.md section 3)"})
         continue
     m = json.load(open(mp))
